@@ -16,7 +16,8 @@ namespace nmtools::index
         
         auto result = result_t {};
 
-        result = ((float)stop - (float)start) / (endpoint ? num - 1 : num);
+        // in the result type (float for integer bounds, the bounds' own type when floating point): a double range keeps double precision
+        result = ((result_t)stop - (result_t)start) / (endpoint ? num - 1 : num);
 
         return result;
     }
